@@ -21,7 +21,8 @@ LEAN_MODULE = 'CC.Properties.C04'
 LEVEL = 'proof'
 THEOREMS = ['CC.C04_linear', 'CC.C04_superpose', 'CC.C04_reported_superpose', 'CC.C04_scale', 'CC.C04_scale_power', 'CC.C04_zero_all',
             'CC.physEqs_lin', 'CC.C16_zero_voltage_spec', 'CC.C16_zero_current_spec']
-LEAN_MODULE_EXTRA = ['CC.Properties.C16']
+THEOREMS += ['CC.C16_gen_shortCircuitifyVS', 'CC.C16_gen_openCircuitifyCS', 'CC.C16_gen_keep', 'CC.C16_gen_construct', 'CC.C16_gen_finite']
+LEAN_MODULE_EXTRA = ['CC.Properties.C16', 'CC.Properties.C16Gen']
 OPEN_STATEMENTS = ['superposition for skeletons in which the zeroing operation changes the record class (Thevenin lossy source zeroed into a Norton impedance): electrically the same immittance; covered by the metamorphic oracle']
 ASSUMPTIONS = ['theorems are about the Spec over a fixed skeleton; the link to the library operations is C16_zero_*_spec plus the structural correspondence',
                'the implementation-side sums use the implementation\'s own solver (validated by C01)']
